@@ -8,7 +8,11 @@ package verifsim
 
 import (
 	"fmt"
+	"runtime"
 	"sync"
+	"sync/atomic"
+	"testing/synctest"
+	"time"
 )
 
 // Yield point kinds (also used as schedule-digest salt and reach counters).
@@ -20,6 +24,18 @@ const (
 	ypKinds
 )
 
+// Task states as seen by the task itself (atomic: a task that returns from an operation it was
+// blocked in runs for a few instructions beside whoever the root has scheduled meanwhile).
+const (
+	stRun     int32 = iota // runnable: running, or parked at a yield point
+	stExt                  // in (or about to enter) an operation that blocks outside the scheduler
+	stPending              // back from that operation and parked until it is picked again
+)
+
+// extBit marks a hand-back that is the announcement of a blocking operation (the task does
+// not park: it goes on into the operation).
+const extBit = 1 << 24
+
 type task struct {
 	id   int
 	wake chan struct{}
@@ -27,6 +43,12 @@ type task struct {
 	// set by the owner before it hands control back; read by the root (norace)
 	inNode  int // id of the node the task is parked in (-1: not inside a node)
 	opsDone int
+	// goroutines the library starts itself (instrumented build: verifyield.Go) are tasks too
+	goid   int64
+	state  atomic.Int32
+	helper bool
+	ext    bool // the root's view: announced a blocking operation and has not been seen back
+	body   func(t *task)
 }
 
 type sched struct {
@@ -48,10 +70,40 @@ type sched struct {
 	overlapNode int // switches taken while some other task is parked inside the same node
 	stalls      int // a task was parked mid-operation while others completed >=2 whole operations
 	active      bool
+	// asynchrony inside the library (instrumented build)
+	async      bool // library goroutines and blocking operations are scheduled (needs a bubble)
+	canonical  bool // reference schedule: never switch at a yield point, always pick the lowest runnable id
+	idleCh     chan struct{}
+	extN       int // tasks the root believes blocked outside its control
+	liveG      atomic.Int32 // task goroutines alive (for the foreign-goroutine test)
+	rootGoid   int64
+	helpers    int // library goroutines taken over
+	extBlocks  int // blocking operations announced
+	idleJumps  int // times every task was blocked and the clock had to run on
+	abandoned  int // library goroutines still alive when the run ended
+	hung       bool
+	afterDone  int
+	helperPanic string
+	newTaskOp  func(parent, child *task) // lets the engine give a library goroutine its parent's operation context
 }
 
 func newSched(tape []uint16, thr int, maxSteps int) *sched {
-	return &sched{tape: tape, thr: thr, maxSteps: maxSteps, rootCh: make(chan int), sdig: 1469598103934665603}
+	return &sched{tape: tape, thr: thr, maxSteps: maxSteps, rootCh: make(chan int), sdig: 1469598103934665603, idleCh: make(chan struct{}, 1)}
+}
+
+// curGoid is the id of the calling goroutine (slow: only used where goroutines the simulator
+// did not start may be around, and once per task).
+func curGoid() int64 {
+	var buf [48]byte
+	n := runtime.Stack(buf[:], false)
+	var id int64
+	for _, c := range buf[len("goroutine "):n] {
+		if c < '0' || c > '9' {
+			break
+		}
+		id = id*10 + int64(c-'0')
+	}
+	return id
 }
 
 //go:norace
@@ -94,7 +146,7 @@ func (s *sched) decide(kind int, node int) bool {
 		return false
 	}
 	e := s.nextTape()
-	sw := int(e>>8) >= 256-s.thr
+	sw := int(e>>8) >= 256-s.thr && !s.canonical
 	s.mix(uint64(s.cur.id)<<32 | uint64(kind)<<24 | uint64(uint32(node+1))<<1 | b2u(sw))
 	if !sw {
 		return false
@@ -140,7 +192,7 @@ func (s *sched) yield(kind int, node int) {
 func (s *sched) resumed(t *task) { t.inNode = -1 }
 
 //go:norace
-func (s *sched) markDone(t *task) { t.done = true; t.inNode = -1 }
+func (s *sched) markDone(t *task) { t.done = true; t.inNode = -1; s.liveG.Add(-1) }
 
 //go:norace
 func (s *sched) noteOpDone(t *task) { t.opsDone++ }
@@ -149,12 +201,15 @@ func (s *sched) noteOpDone(t *task) { t.opsDone++ }
 func (s *sched) pick() *task {
 	var r []*task
 	for _, t := range s.tasks {
-		if !t.done {
+		if !t.done && !t.ext {
 			r = append(r, t)
 		}
 	}
 	if len(r) == 0 {
 		return nil
+	}
+	if s.canonical {
+		return r[0]
 	}
 	e := s.nextTape()
 	t := r[int(e&0xff)%len(r)]
@@ -170,10 +225,10 @@ func (s *sched) setActive(b bool) { s.active = b }
 
 // spawn registers a client; its body runs only when the root resumes it.
 func (s *sched) spawn(body func(t *task)) *task {
-	t := &task{id: len(s.tasks), wake: make(chan struct{}), inNode: -1}
-	s.tasks = append(s.tasks, t)
+	t := s.newTask()
 	s.wg.Add(1)
 	go func() {
+		t.goid = curGoid()
 		parkInitial(t.wake)
 		body(t)
 		s.markDone(t)
@@ -181,6 +236,167 @@ func (s *sched) spawn(body func(t *task)) *task {
 		finish(s.rootCh, t.id)
 	}()
 	return t
+}
+
+//go:norace
+func (s *sched) newTask() *task {
+	t := &task{id: len(s.tasks), wake: make(chan struct{}), inNode: -1}
+	s.tasks = append(s.tasks, t)
+	s.liveG.Add(1)
+	return t
+}
+
+// ---- goroutines and blocking operations of the library (instrumented build) ----
+
+// spawnHelper is verifyield.Go: called by the running task (or by a library goroutine that
+// is itself a task). The new goroutine parks until the root picks it.
+//
+//go:norace
+func (s *sched) spawnHelper(fn func()) bool {
+	if s == nil || !s.active || !s.async || s.cur == nil || s.cur.goid != curGoid() {
+		return false
+	}
+	parent := s.cur
+	t := s.newTask()
+	t.helper = true
+	s.helpers++
+	if s.newTaskOp != nil {
+		s.newTaskOp(parent, t)
+	}
+	go func() {
+		t.goid = curGoid()
+		parkInitial(t.wake)
+		func() {
+			defer func() {
+				// a panic in a library goroutine would kill the process; here it ends the task
+				if p := recover(); p != nil {
+					s.helperPanic = fmt.Sprint(p)
+				}
+			}()
+			fn()
+		}()
+		s.markDone(t)
+		finish(s.rootCh, t.id)
+	}()
+	return true
+}
+
+// blocking is verifyield.Blocking: the running task announces an operation the scheduler
+// cannot see into and goes on into it without parking.
+//
+//go:norace
+func (s *sched) blocking() any {
+	if s == nil || !s.active || !s.async {
+		return nil
+	}
+	t := s.cur
+	if t == nil || t.goid != curGoid() {
+		return nil
+	}
+	s.extBlocks++
+	s.mix(0xB10C<<32 | uint64(t.id))
+	t.state.Store(stExt)
+	announce(s.rootCh, t.id|extBit)
+	return t
+}
+
+// unblocked is verifyield.Unblocked: the operation is over; wait to be picked.
+func (s *sched) unblocked(tok any) {
+	t, ok := tok.(*task)
+	if !ok || t == nil {
+		return
+	}
+	t.state.Store(stPending)
+	select {
+	case s.idleCh <- struct{}{}:
+	default:
+	}
+	parkInitial(t.wake)
+	t.state.Store(stRun)
+}
+
+// wrapTimerFunc is verifyield.Wrap: fn will be run by a timer in a goroutine of its own; that
+// goroutine becomes a task which is blocked (on the timer) from the start.
+//
+//go:norace
+func (s *sched) wrapTimerFunc(fn func()) func() {
+	if s == nil || !s.active || !s.async || s.cur == nil || s.cur.goid != curGoid() {
+		return fn
+	}
+	parent := s.cur
+	t := s.newTask()
+	s.liveG.Add(-1) // its goroutine does not exist until the timer fires
+	t.helper = true
+	t.ext = true
+	t.state.Store(stExt)
+	s.extN++
+	s.helpers++
+	if s.newTaskOp != nil {
+		s.newTaskOp(parent, t)
+	}
+	return func() {
+		t.goid = curGoid()
+		s.timerFired(t)
+		s.unblocked(t)
+		fn()
+		s.markDone(t)
+		finish(s.rootCh, t.id)
+	}
+}
+
+//go:norace
+func (s *sched) timerFired(t *task) { s.liveG.Add(1) }
+
+// settle waits until every other goroutine of the bubble is parked or durably blocked and
+// then takes note of the tasks that came back from their blocking operations.
+func (s *sched) settle() {
+	synctest.Wait()
+	s.noteBack()
+}
+
+//go:norace
+func (s *sched) noteBack() {
+	for _, t := range s.tasks {
+		if t.ext && !t.done && t.state.Load() == stPending {
+			t.ext = false
+			s.extN--
+		}
+	}
+}
+
+//go:norace
+func (s *sched) noteExt(t *task) { t.ext = true; s.extN++ }
+
+// idle: every live task is blocked outside the scheduler. The root blocks too, which lets the
+// bubble's clock run on to the next timer; false when nothing came back within two simulated days.
+func (s *sched) idle() bool {
+	tm := time.NewTimer(48 * time.Hour)
+	defer tm.Stop()
+	select {
+	case <-s.idleCh:
+		return true
+	case <-tm.C:
+		return false
+	}
+}
+
+//go:norace
+func (s *sched) clientsDone() bool {
+	for _, t := range s.tasks {
+		if !t.helper && !t.done {
+			return false
+		}
+	}
+	return true
+}
+
+//go:norace
+func (s *sched) countAbandoned() {
+	for _, t := range s.tasks {
+		if !t.done {
+			s.abandoned++
+		}
+	}
 }
 
 // run drives all spawned clients to completion. between is called by the root
@@ -191,18 +407,48 @@ func (s *sched) run(between func(step int)) error {
 	n := 0
 	lastOps := make([]int, len(s.tasks))
 	parkedSince := make([]int, len(s.tasks))
+	s.rootGoid = curGoid()
 	for {
+		if s.extN > 0 {
+			s.settle()
+		}
+		if s.helpers > 0 && s.clientsDone() {
+			// the callers are finished; what the library left running gets a bounded extension
+			s.afterDone++
+			if s.afterDone > 64 {
+				break
+			}
+		}
 		t := s.pick()
 		if t == nil {
-			break
+			if s.extN == 0 {
+				break
+			}
+			if s.clientsDone() && s.afterDone > 8 {
+				break
+			}
+			s.idleJumps++
+			if !s.idle() {
+				s.hung = !s.clientsDone()
+				break
+			}
+			continue
 		}
 		s.setCur(t)
-		id := resumeAndWait(t.wake, s.rootCh)
+		msg := resumeAndWait(t.wake, s.rootCh)
 		s.setCur(nil)
+		id := msg &^ extBit
 		if id != t.id {
 			return fmt.Errorf("scheduler: resumed task %d but task %d handed back", t.id, id)
 		}
+		if msg&extBit != 0 {
+			s.noteExt(t)
+		}
 		n++
+		if len(lastOps) < len(s.tasks) {
+			lastOps = append(lastOps, make([]int, len(s.tasks)-len(lastOps))...)
+			parkedSince = append(parkedSince, make([]int, len(s.tasks)-len(parkedSince))...)
+		}
 		s.stallProbe(lastOps, parkedSince)
 		if between != nil {
 			between(n)
@@ -210,6 +456,10 @@ func (s *sched) run(between func(step int)) error {
 		if s.isOverrun() {
 			// keep driving clients to completion without further switching
 		}
+	}
+	s.countAbandoned()
+	if s.hung {
+		return fmt.Errorf("scheduler: every client is blocked inside the library and nothing wakes it within two simulated days")
 	}
 	s.wg.Wait() // real acquire edge from every client
 	return nil
@@ -279,5 +529,11 @@ func parkInitial(wake chan struct{}) {
 func finish(rootCh chan int, id int) {
 	raceDisable()
 	rootCh <- id
+	raceEnable()
+}
+
+func announce(rootCh chan int, msg int) {
+	raceDisable()
+	rootCh <- msg
 	raceEnable()
 }
